@@ -383,12 +383,27 @@ CONSTS = [
     ("fillMaxItems", "lib.rs", r"self\.updates\.fill\(&mut buf,\s*(u16::MAX)\.into\(\)\)", "max items per updates section"),
     ("piggybackMinSpace", "lib.rs", r"needs_piggyback\(\)\s*&&\s*buf\.remaining_mut\(\)\s*>\s*(\d+)", "space needed after header to open a member section"),
     ("feedMinEstimate", "lib.rs", r"usize::max\(remaining / identity_len,\s*(\d+)\)", "lower bound of the feed estimate"),
+    ("feedIdDiv", "lib.rs", r"let identity_len = \{ self\.config\.max_packet_size\.get\(\)\.saturating_sub\(remaining\) / (\d+) \};", "the feed estimate takes the bytes written so far divided by this as the length of an identity"),
     ("trailingByteBad", "lib.rs", r"if remaining == (\d+) \|\| \(header\.message == Message::Announce && remaining > 0\)", "a single trailing byte is malformed"),
     ("sectionMinBytes", "lib.rs", r"if remaining >= (\d+) && header\.message != Message::Broadcast", "bytes needed to read the count"),
     ("customMinBytes", "lib.rs", r"if !data\.is_empty\(\) && data\.len\(\) < (\d+)", "minimum size of a custom tail"),
     ("customLoopBytes", "lib.rs", r"while data\.remaining\(\) > (\d+) \{", "loop guard of handle_custom_broadcasts"),
     ("lenPrefix", "broadcast.rs", r"if buffer\.remaining_mut\(\) >= node\.data\.len\(\) \+ (\d+)", "length prefix size"),
 ]
+
+# constants the proofs see through (generated as `abbrev`)
+REDUCIBLE_CONSTS = {"feedIdDiv"}
+
+# counter arithmetic: (lean name, file, fn, regex with one group = the method, width, description)
+BUMPS = [
+    ("tokenBumpReset", "lib.rs", "reset", r"self\.timer_token\s*=\s*self\.timer_token\.(\w+)\(1\)", 8, "timer token bump in reset"),
+    ("tokenBumpDisconnected", "lib.rs", "become_disconnected", r"self\.timer_token\s*=\s*self\.timer_token\.(\w+)\(1\)", 8, "timer token bump in become_disconnected"),
+    ("tokenBumpUndead", "lib.rs", "become_undead", r"self\.timer_token\s*=\s*self\.timer_token\.(\w+)\(1\)", 8, "timer token bump in become_undead"),
+    ("probeNumberBump", "probe.rs", "start", r"self\.probe_number\s*=\s*self\.probe_number\.(\w+)\(1\)", 8, "probe number bump in Probe::start"),
+    ("incBump", "lib.rs", "handle_self_update", r"self\.incarnation\s*=\s*incarnation\.(\w+)\(1\)", 16, "incarnation bump when refuting"),
+]
+BUMP_FNS = {("wrapping_add", 8): "wrapAdd8", ("saturating_add", 8): "satAdd8", ("wrapping_add", 16): "wrapAdd16",
+            ("saturating_add", 16): "satAdd16"}
 
 
 def main():
@@ -428,10 +443,29 @@ def main():
             if not re.fullmatch(r"\d+", v):
                 raise TranslateError("constant %s is not a literal: %r" % (lname, v))
             lines.append("/-- %s (%s) -/" % (desc, fname))
-            lines.append("def %s : Nat := %s\n" % (lname, v))
+            lines.append("%s %s : Nat := %s\n" % ("abbrev" if lname in REDUCIBLE_CONSTS else "def", lname, v))
             report[lname] = v
         except (TranslateError, OSError) as e:
             failed.append((lname, fname, "<const>", str(e)))
+            report[lname] = "FAILED: %s" % e
+    for (lname, fname, fn, rx, width, desc) in BUMPS:
+        try:
+            src = open(os.path.join(REPO, "src", fname)).read()
+            cut = src.find("#[cfg(test)]\nmod tests")
+            if cut > 0:
+                src = src[:cut]
+            body = find_fn_body(src, "", fn)
+            ms = re.findall(rx, body)
+            if len(ms) != 1:
+                raise TranslateError("expected exactly one bump in %s, found %d" % (fn, len(ms)))
+            lean_fn = BUMP_FNS.get((ms[0], width))
+            if lean_fn is None:
+                raise TranslateError("unknown arithmetic %s (u%d) in %s" % (ms[0], width, fn))
+            lines.append("/-- %s (%s::%s): `%s(1)` -/" % (desc, fname, fn, ms[0]))
+            lines.append("abbrev %s (n : Nat) : Nat := %s n\n" % (lname, lean_fn))
+            report[lname] = ms[0]
+        except (TranslateError, ValueError, IndexError, OSError) as e:
+            failed.append((lname, fname, fn, str(e)))
             report[lname] = "FAILED: %s" % e
     lines.append("end Foca.Gen")
     text = "\n".join(lines) + "\n"
